@@ -461,6 +461,112 @@ def _state_tag(before, ev, w):
     return tag
 
 
+def _reply(peer, serial):
+    out = [m for m in peer.received()
+           if m['fields'].get('reply_serial') == serial]
+    return out[0] if len(out) == 1 else None
+
+
+def run_long_lived(gap, hello_every):
+    """a long-lived bus: client A owns a name while gap-1 short-lived
+    connections come and go; then B connects and asks for the name without
+    replacement: A is still the owner, B waits, lookups say so; when B
+    leaves, A owns the name as before"""
+    from mcx import fakes
+    viol = []
+    name = 'org.ex.Long'
+    try:
+        w = fakes.BusWorld()
+        a = w.connect()
+        s = a.call_bus('RequestName', 'su', [name, 0])
+        r = _reply(a, s)
+        if r is None or r['body'] != [1]:
+            return [('long-lived/setup', 'RequestName answered %r' % (r,))]
+        left = gap - 1
+        while left > 0:
+            k = min(left, hello_every)
+            w.churn(k - 1)
+            left -= k
+            t = w.connect()
+            t.disconnect()
+        b = w.connect()
+        where = ('client A (%s) owns %s, %d connections came and went, '
+                 'client B (%s) connected' % (a.name, name, gap - 1, b.name))
+        if b.name == a.name or not b.name:
+            viol.append(('long-lived/same-unique-name', where))
+            return viol
+        s = b.call_bus('RequestName', 'su', [name, 0])
+        r = _reply(b, s)
+        if r is None or r['type'] != 2 or r['body'] != [2]:
+            viol.append(('long-lived/request',
+                         '%s; B asked for the name (no flags) and was '
+                         'answered %r, expected "in queue"'
+                         % (where, r and (r['type'], r['body']))))
+        a.received()
+        for who in (a, b):
+            s = who.call_bus('GetNameOwner', 's', [name])
+            r = _reply(who, s)
+            if r is None or r['type'] != 2 or r['body'] != [a.name]:
+                viol.append(('long-lived/owner-lookup',
+                             '%s; GetNameOwner asked by %s answered %r, the '
+                             'owner is %s' % (where, who.name,
+                                              r and (r['type'], r['body']),
+                                              a.name)))
+            s = who.call_bus('ListQueuedOwners', 's', [name])
+            r = _reply(who, s)
+            if r is None or r['type'] != 2 or \
+                    r['body'] != [[a.name, b.name]]:
+                viol.append(('long-lived/queue-listing',
+                             '%s; ListQueuedOwners answered %r, expected %r'
+                             % (where, r and (r['type'], r['body']),
+                                [a.name, b.name])))
+        b.disconnect()
+        c = w.connect()
+        s = c.call_bus('GetNameOwner', 's', [name])
+        r = _reply(c, s)
+        if r is None or r['type'] != 2 or r['body'] != [a.name]:
+            viol.append(('long-lived/owner-after-leave',
+                         '%s and left again; GetNameOwner answered %r, the '
+                         'owner is still %s' % (where, r and (r['type'],
+                                                              r['body']),
+                                                a.name)))
+        s = c.call_bus('ListQueuedOwners', 's', [name])
+        r = _reply(c, s)
+        if r is None or r['type'] != 2 or r['body'] != [[a.name]]:
+            viol.append(('long-lived/queue-after-leave',
+                         '%s and left again; ListQueuedOwners answered %r'
+                         % (where, r and (r['type'], r['body']))))
+        # A is still a connected client: a call to its unique name and to
+        # the name it owns reaches it
+        a.received()
+        for dest in (a.name, name):
+            c.send_raw(R.encode_message(
+                R.METHOD_CALL, c.next_serial(),
+                {'path': '/o', 'member': 'Ping', 'destination': dest}))
+            got = [m for m in a.received() if m['type'] == 1]
+            if len(got) != 1:
+                viol.append(('long-lived/owner-unreachable',
+                             '%s and left again; a call to %s reached A %d '
+                             'times' % (where, dest, len(got))))
+    except Exception as e:
+        viol.append(('long-lived/raises-%s' % type(e).__name__,
+                     '%d connections between A and B: raised %r'
+                     % (gap - 1, e)))
+    return viol
+
+
+def _task_long_lived(gap):
+    res = core.Result()
+    res.count('states')
+    res.count('transitions', gap + 12)
+    res.count('evaluations', 12)
+    res.count('nontrivial')
+    for t, w in run_long_lived(gap, 1000):
+        res.violation('%s/%s' % (PROP, t), w,
+                      {'part': 'long-lived', 'args': [gap, 1000]}, size=gap)
+    return res
+
+
 def run(ctx):
     ctx.rule = (
         'breadth-first search with state deduplication over histories of '
@@ -475,7 +581,9 @@ def run(ctx):
         'through the client API (requestBusName with six flag / errback '
         'combinations, releaseBusName, getNameOwner, '
         'listQueuedBusNameOwners) of three real client connections on a real '
-        'bus. non-trivial = history involving '
+        'bus. Long-lived bus: 254..257 / 65534..65537 connections come and '
+        'go between the owner\'s and a contender\'s connection. '
+        'non-trivial = history involving '
         'more than one client')
     ctx.assumptions = [
         'where a replaced owner goes (queue or nowhere) is left open by the '
@@ -523,8 +631,13 @@ def run(ctx):
     explore.explore(ctx, ClientApiScenario, {'clients': 3},
                     max_depth=3 if ctx.quick else 5,
                     label='client API on a composed system, 3 clients')
+    from mcx import scale
+    ctx.map(_task_long_lived, scale.LADDER_SMALL[3:] + scale.LADDER_WORD)
     ctx.bounds = {k: v for k, v in ctx.parts.items()}
 
 
 def replay(data):
+    if data.get('part') == 'long-lived':
+        return [('%s/%s' % (PROP, t), w) for t, w in
+                run_long_lived(*data['args'])]
     return explore.replay_violation(data)
